@@ -129,8 +129,10 @@ theorem allU1_eq_allChrs (r : List Val)
     · simp only [allU1, u1Chars, allChrs, ih']
       cases allChrs r <;> simp
 
-/-- **each2_join_sound**: numpy's `'<U1'` join presents the result list as the manual does
-    (a list of characters is a string) unless the verb returned strings or symbols of length ≤ 1 -/
+/-- **each2_join_sound** (the code before /repo 5fd71c0): numpy's `'<U1'` join presents the result
+    list as the manual does (a list of characters is a string) unless the verb returned strings or
+    symbols of length ≤ 1.  The repaired code uses `mkSeq` itself, for which `each2_eq` is the
+    whole statement. -/
 theorem each2_join_sound (r : List Val)
     (h : ∀ v ∈ r, u1Chars v = none ∨ ∃ c, v = .chr c) : u1Join r = mkSeq r := by
   unfold u1Join mkSeq
@@ -488,8 +490,8 @@ theorem each_index_pystr_observable :
       = (some "(L (s 97))", some "(s 97)") := by
   decide
 
-/-- the `'<U1'` join of Each-2 is observable when the verb returns one-character strings:
-    `[1 2]{"a"}'[3 4]` gives "aa", the expansion the list ["a" "a"] -/
+/-- the `'<U1'` join of Each-2 (before /repo 5fd71c0) is observable when the verb returns
+    one-character strings: `[1 2]{"a"}'[3 4]` gave "aa", the expansion the list ["a" "a"] -/
 theorem each2_u1_join_observable :
     ((u1Join [.str [97], .str [97]]).toWire, (mkSeq [.str [97], .str [97]]).toWire)
       = ("(s 97 97)", "(L (s 97) (s 97))") := by
@@ -502,7 +504,7 @@ example : ((implEachIndex strToChrArr (logged1X "{x}") (.list [.int 10, .int 20]
     = some ("(L (L (i 0) (i 10)) (L (i 1) (i 20)))", "(L (i 0) (i 10))|(L (i 1) (i 20))") := by
   decide
 
-example : ((implEach2 strToChrArr u1Join failure subI (.list [.int 5, .int 7, .int 9])
+example : ((implEach2 strToChrArr mkSeq failure subI (.list [.int 5, .int 7, .int 9])
       (.list [.int 1, .int 2])).run []).map (fun p => (p.1.toWire, showLog p.2))
     = some ("(L (i 4) (i 5))", "(i 5),(i 1)|(i 7),(i 2)") := by
   decide
